@@ -29,7 +29,8 @@ REQUIRED = ["history.reports_succeed", "history.live_set", "history.solve", "his
             "history.phases", "history.save", "history.structure", "shown.params", "shown.limits", "shown.phases",
             "detour.extra_add_delete", "detour.replace_kind", "detour.rename_late", "detour.via_intermediate",
             "detour.mux_input_reparented", "detour.move", "detour.scratch_until_end", "detour.mux_via_temp_rail",
-            "detour.scratch_mux_deleted_via_its_source", "detour.namesake_deleted_as_descendant"]
+            "detour.scratch_mux_deleted_via_its_source", "detour.namesake_deleted_as_descendant",
+            "detour.created_with_scratch_source"]
 SIZES = {"quick": 110, "thorough": 900}
 ASSUMPTIONS = ["numeric cells are compared to 1e-9 relative (summation order of sibling currents depends on edge order)",
                "a detour history in which the code rejects a call is outside the quantifier (successful histories) and is "
@@ -49,7 +50,7 @@ def gen(rng, i, tier):
             keys = rng.sample(LIMIT_KEYS, rng.randint(1, 3))
             c["limits"] = {k: ([-40.0, G.sig(rng.uniform(50, 150))] if k == "tp" else
                                [G.sig(rng.uniform(0, 0.01)), G.sig(G.lu(rng, 0.1, 100.0))]) for k in keys}
-    return {"spec": spec, "hseed": rng.randrange(1 << 40), "detour_rate": rng.choice([0.3, 0.6])}
+    return {"spec": spec, "hseed": rng.randrange(1 << 40), "detour_rate": rng.choice([0.3, 0.6]), "first_scratch": i % 5 == 4}
 
 
 def directed():
@@ -74,7 +75,7 @@ def other_kind(rng, kind, has_mux):
     return rng.choice([k for k in opts if k != kind])
 
 
-def plan_history(rng, T, rate):
+def plan_history(rng, T, rate, first_scratch=False):
     """Ops (all expected to be accepted) that end at T. Returns (ops, detours used)."""
     order = S.topo_orders(T, rng, rng.choice(["random", "dfs", "bfs", "sources_first", "reverse_sources"]))["comps"]
     tmpl = S.comp_map(T)
@@ -95,8 +96,21 @@ def plan_history(rng, T, rate):
     def rail_of(c, temp):
         return "" if temp else c.get("rail", "")
 
-    start = entry(first)
-    ops.append(("start", start, first.get("group", ""), first.get("rail", "")))
+    zero_free_before = None
+    if first_scratch:
+        # the system is CREATED with a scratch source (node index 0); the real first source joins through add_source.
+        # The scratch source is deleted right before a component that will be the ONLY child of its parent is added:
+        # that component then sits at the recycled node index 0 (an index that is falsy in `if ind:` / any(...) tests)
+        ops.append(("start", hist.comp_entry(rng, "Source", "~z0"), "", ""))
+        ops.append(add_op(first, entry(first), [], first.get("rail", "")))
+        only = [c["name"] for c in order[1:] if c["kind"] != "Source" and len(c["parents"]) == 1
+                and len(ch.get(c["parents"][0], [])) == 1]
+        nonsrc = [c["name"] for c in order[1:] if c["kind"] != "Source"]
+        zero_free_before = (only or nonsrc or [None])[0] if rng.random() < 0.8 else (nonsrc or [None])[0]
+        used.append("created_with_scratch_source" + ("" if zero_free_before else "_kept_to_the_end"))
+    else:
+        start = entry(first)
+        ops.append(("start", start, first.get("group", ""), first.get("rail", "")))
     cur[first["name"]] = first["name"]
     scratch = []
     if rng.random() < 0.35:
@@ -118,6 +132,15 @@ def plan_history(rng, T, rate):
         used.append("scratch_mux_deleted_via_its_source")
     for c in order[1:]:
         n = c["name"]
+        if n == zero_free_before:
+            if rng.random() < 0.5:
+                ops.append({"op": "analyse", "what": rng.choice(["solve", "params", "save"])})
+            ops.append({"op": "del_comp", "name": "~z0", "del_childs": True})
+            if rng.random() < 0.6:
+                # added without detour so that it takes the freed index 0
+                ops.append(add_op(c, entry(c), [cur[p] for p in c["parents"]], c.get("rail", "")))
+                cur[n] = n
+                continue
         parents_now = [cur[p] for p in c["parents"]]
         has_mux = any(tmpl[x]["kind"] == "PMux" for x in cur)
         detour = rng.random() < rate
@@ -266,6 +289,8 @@ def plan_history(rng, T, rate):
             ops.append({"op": "set_comp_phases", "name": c["name"], "conf": copy.deepcopy(c["phase"])})
     for sn in scratch:
         ops.append({"op": "del_comp", "name": sn, "del_childs": True})
+    if first_scratch and zero_free_before is None:
+        ops.append({"op": "del_comp", "name": "~z0", "del_childs": True})
     return ops, used
 
 
@@ -297,7 +322,7 @@ def run(ctx, case):
         for c in T["comps"]:
             if c.get("limits"):
                 c["limits"] = {k: v for k, v in c["limits"].items() if k in applicable(c["kind"])} or None
-    ops, used = plan_history(rng, T, case["detour_rate"])
+    ops, used = plan_history(rng, T, case["detour_rate"], case.get("first_scratch", False))
     reload_at = rng.randrange(1, max(2, len(ops))) if will_reload else -1
     audit_at = rng.randrange(0, max(1, len(ops) - 1)) if rng.random() < 0.5 else -1
     late_src = [k_ for k_, o_ in enumerate(ops[1:]) if isinstance(o_, dict) and o_["op"] == "add_source"]
